@@ -37,13 +37,27 @@ package extcfs
 //@   at_call Cipher.Decrypt requires len(data) >= 4 && arr($1) == arr(data) && off($1) == off(data) + 4 && len($1) == len(data) - 4 && $0 == key
 //@   ensures err != nil ==> decrypted == nil
 
+// a stream that is rejected here (shorter than the tag, unknown tag) is closed here: the caller
+// only gets the error; otherwise it is handed to the tagged cipher, which owns it from then on
 //@ func Cipher.DecryptReader [C05]
 //@   requires stream != nil
 //@   ensures err != nil ==> reader == nil
+//@   trace io.ReadFull as READTAG bind rt
+//@   trace Reader.Close as CLOSE
+//@   trace Cipher.DecryptReader as INNER bind inner
+//@   at_call Reader.Close requires $recv == stream
+//@   at_call Cipher.DecryptReader requires $1 == stream
+//@   trace_ensures rt.1 != nil : ^READTAG CLOSE $
+//@   trace_ensures rt.1 == nil && !bound(inner) : ^READTAG CLOSE $
+//@   trace_ensures bound(inner) : ^READTAG INNER $
 
 //@ func Cipher.EncryptWriter [C05]
 //@   requires stream != nil && c.defaultCiper != nil
 //@   trace Write as TAG
-//@   trace Cipher.EncryptWriter as INNER
+//@   trace Cipher.EncryptWriter as INNER bind inner
 //@   trace_ensures err == nil : ^TAG INNER $
 //@   ensures err != nil ==> writer == nil
+// a stream whose tag could not be written is closed here
+//@   trace Writer.Close as CLOSE
+//@   trace_ensures !bound(inner) : ^TAG CLOSE $
+//@   at_call Writer.Close requires $recv == stream
